@@ -164,7 +164,7 @@ impl Prop for C02 {
     type Input = Input;
 
     fn budget(tier: Tier) -> u64 {
-        tier.pick(150_000, 4_000_000)
+        tier.pick(1_000_000, 8_000_000)
     }
 
     fn strategy(tier: Tier) -> BoxedStrategy<Case> {
